@@ -8,8 +8,13 @@
 package nd
 
 import (
+	"crypto"
+	"crypto/ed25519"
 	"crypto/sha256"
 	"fmt"
+
+	"github.com/go-i2p/crypto/dsa"
+	"github.com/go-i2p/crypto/ecdsa"
 )
 
 // Draw is one recorded draw.
@@ -195,4 +200,48 @@ func ObserveBool(label string, v bool) {
 		}
 		cur.Observed = append(cur.Observed, Obs{Label: label, V: []uint64{x}})
 	}
+}
+
+// Ed25519Key returns an arbitrary Ed25519 key pair (64-byte private key = seed || public key, and the
+// public key).  Under the executor the seed is a draw and the public half is a fresh symbol tied to the
+// private key; natively the pair is derived from the recorded seed.
+func Ed25519Key() (priv []byte, pub []byte) {
+	seed := Bytes(32)
+	k := ed25519.NewKeyFromSeed(seed)
+	return []byte(k), []byte(k[32:])
+}
+
+// SigValid is the independent signature oracle: the uninterpreted validity predicate V(alg,key,msg,sig)
+// under the executor (the same predicate the library's verification stubs evaluate), the real primitive
+// natively.
+func SigValid(alg string, key, msg, sig []byte) bool {
+	switch alg {
+	case "ed25519":
+		return len(key) == ed25519.PublicKeySize && ed25519.Verify(ed25519.PublicKey(key), msg, sig)
+	case "ed25519ph":
+		return len(key) == ed25519.PublicKeySize &&
+			ed25519.VerifyWithOptions(ed25519.PublicKey(key), msg, sig, &ed25519.Options{Hash: crypto.SHA512}) == nil
+	case "dsa":
+		if len(key) != 128 {
+			return false
+		}
+		var k dsa.DSAPublicKey
+		copy(k[:], key)
+		return k.Verify(msg, sig) == nil
+	case "ecdsa-p256":
+		if len(key) != 64 {
+			return false
+		}
+		var k ecdsa.ECP256PublicKey
+		copy(k[:], key)
+		return k.Verify(msg, sig) == nil
+	case "ecdsa-p384":
+		if len(key) != 96 {
+			return false
+		}
+		var k ecdsa.ECP384PublicKey
+		copy(k[:], key)
+		return k.Verify(msg, sig) == nil
+	}
+	return false
 }
